@@ -244,7 +244,7 @@ def case_strategy():
                         st.sampled_from([1.0, 5.0, 20.0]).map(lambda v: {"points": {"p": [[0.0, 0.0], [10.0, v]]}}),
                         st.sampled_from([1.0, 4.0]).map(lambda v: {"constants": {"k": v}, "points": {"p": [[0.0, 1.0], [10.0, v]]}}))
     return st.fixed_dictionaries({
-        "start": st.sampled_from(["0", "1", "2.5"]), "dt": st.sampled_from(["1", "0.5", "0.25", "0.1"]),
+        "start": st.sampled_from(["0", "1", "2.5", "8", "9.5", "98"]), "dt": st.sampled_from(["1", "0.5", "0.25", "0.1"]),
         "steps": st.lists(setting, min_size=1, max_size=7),
         "equations": st.sampled_from([["s"], ["s", "f"], ["k", "c", "s"]]),
         "compress": st.booleans(), "adapter": st.sampled_from(["file", "memory"]), "path": st.sampled_from(["instance", "server"])})
